@@ -12,5 +12,6 @@ pub mod gen;
 pub mod json;
 pub mod refs;
 pub mod settings;
+pub mod uni;
 
 pub use ctx::{Ctx, Local, Tier};
